@@ -260,8 +260,12 @@ def gen_body(rng, node, depth, budget, opts):
                 if not free:
                     continue
                 name = rng.choice(free)
-                vis = [v for v in visible_names(node) if v != name]
+                vis = visible_names(node)
                 base = rng.choice(vis) if vis and rng.random() < opts["inherit"] else None
+                # a nested class named like its base in an outer scope: class X : X
+                outer_same = [v for v in vis if v in free]
+                if outer_same and depth > 0 and rng.random() < 0.25:
+                    name = base = rng.choice(outer_same)
                 c = Node(name, node)
                 if base:
                     c.base = visible_class(node, base)
